@@ -96,6 +96,7 @@ fn run_once(p: &Value, spec: &SchedSpec, flip: Option<Flip>) -> (SimOutcome, Res
     let (w, records, steps, batched, max_mults) = (pu(p, "w"), pu(p, "records"), pu(p, "steps"), pb(p, "batched"), pu(p, "max_mults"));
     let pattern = ps(p, "pattern").to_string();
     let (combo, input_seed) = (pu64(p, "combo"), pu64(p, "input_seed"));
+    let permuted = p.get("push_order").and_then(Value::as_str) == Some("perm");
     let knobs = &p["knobs"];
     let (active, read_size, world_seed) = (pu(knobs, "active"), pu(knobs, "read_size"), pu64(knobs, "world_seed"));
     let log: StdArc<StdMutex<Res>> = StdArc::new(StdMutex::new(BTreeMap::new()));
@@ -128,7 +129,9 @@ fn run_once(p: &Value, spec: &SchedSpec, flip: Option<Flip>) -> (SimOutcome, Res
                         .await
                         .map(|_| ())
                     } else {
-                        for i in 0..records {
+                        // concurrent record tasks reach the proof store in any order: seeded permutation, per helper
+                        let order: Vec<usize> = if permuted { Rng::sub(input_seed, 500 + h as u64).perm(records) } else { (0..records).collect() };
+                        for i in order {
                             push_record(i);
                         }
                         v.validate().await
@@ -192,7 +195,8 @@ impl Scenario for PushScenario {
         };
         let est = 1500 + (records.div_ceil(max_mults) * 600) as u64;
         let mut p = json!({"w": w, "records": records, "steps": steps, "batched": batched, "max_mults": max_mults,
-            "pattern": pattern, "combo": r.below(512), "input_seed": r.next_u64() >> 12, "flip": flip, "knobs": draw_knobs(&mut r)});
+            "pattern": pattern, "combo": r.below(512), "input_seed": r.next_u64() >> 12, "flip": flip, "knobs": draw_knobs(&mut r),
+            "push_order": if !batched && r.chance(1, 2) { "perm" } else { "asc" }});
         p["sched"] = SchedSpec::draw(&mut r, est, 4_000_000);
         p
     }
@@ -214,7 +218,7 @@ impl Scenario for PushScenario {
             return RunRes::invalid("push: plan");
         }
         let spec = SchedSpec::from_json(&p["sched"], explicit);
-        let shape = format!("push w{w} r{records} s{steps} b{}x{max_mults} {pattern} f{}", u8::from(batched),
+        let shape = format!("push w{w} r{records} s{steps} b{}x{max_mults} {pattern} {} f{}", u8::from(batched), p.get("push_order").and_then(Value::as_str).unwrap_or("asc"),
             flip.as_ref().map_or("-".to_string(), |f| f.entry.to_string()));
 
         // ---- honest batch: accepted by everyone ----
@@ -244,6 +248,7 @@ impl Scenario for PushScenario {
             r.probe(&format!("width_{w}"), 1);
             r.probe("proof_batches", if batched { records.div_ceil(max_mults) as u64 } else { 1 });
             r.probe("multi_gate_batch", u64::from(steps > 1));
+            r.probe("pushed_in_permuted_order", u64::from(p.get("push_order").and_then(Value::as_str) == Some("perm")));
             r.probe("blocks_per_gate_ge_32", u64::from(blocks_per_gate >= 32));
             return r;
         };
